@@ -483,6 +483,8 @@ def run(chk):
     no_timeout_after_upgrade(chk, prog)
     from . import c10
     c10.exact_reads(chk, prog, "R5.exact_reads")
+    c10.frame_integrity(chk, prog, "R9.frame_fields", "R9.no_read_ahead")
+    c10.decoder_outcomes(chk, prog, "R9.decoder_outcomes")
     from . import c18
     c18.sha1_padding(chk, prog, rule="R1.accept_sha1_padding")
     import json as _json
